@@ -260,3 +260,14 @@ O("C02.next_evfilt", "C02", "h_C02.c", "h_C02_next_evfilt",
   ["next_evfilt", "make_evfilt", "echs_range_overlaps_p", "echs_range_precedes_p", "echs_event_range"], kind="bounded",
   bound="3 pending occurrences x 3 pending exceptions per call", unwind=9, unwinding_assertions=True,
   solver=["minisat", "kissat"], timeout={"quick": 900, "thorough": 3600})
+
+# ------------------------------------------------------------------ C10
+P("C10", level="proof",
+  level_text="Memory-safety and well-formedness contracts on the real parser front end (evical.c): esccpy for buffers of any size up to 2 KiB / 8 KiB with an inductive loop contract and its frame enforced by DFCC. Independence of chunking itself is NOT claimed: the unchanged parser already violates it (known finding), and a two-run relation over symbolic strings is beyond CBMC's reach at useful lengths.",
+  level_note="Trusted: CBMC semantics and its memchr model; Not covered: _ical_pull (the obligation with callees by contract gave no answer in 900 s and is not registered), chunk independence (pre-existing violations on the unchanged tree, see DESIGN.md), _ical_proc / snarf_* on arbitrary bytes.",
+  not_covered=["independence of chunking (unchanged tree already violates it: fold marker lost when the stash is empty, escapes cut at a chunk end)", "_ical_pull memory safety (undecided within budget)", "_ical_proc and the field readers on arbitrary bytes (libc string functions, gperf tables)"])
+O("C10.esccpy", "C10", "h_C10.c", "h_C10_esccpy",
+  "esccpy(tgt,tz,src,sz): for any content and any sizes (tz <= 2 KiB, sz <= 8 KiB) writes only inside tgt[0..tz), returns a length < tz and NUL-terminates (over-long lines return 0); loop invariant inductive, loop terminates",
+  ["esccpy"], dfcc=True, enforce="esccpy", loop_contracts=True, solver=["minisat", "kissat"], replay=False,
+  replay_note="frame variant (is_fresh inputs)")
+# C10.pull (harness h_C10_pull exists): no answer within 900 s at chunk length 12 with the callees by contract -- not registered
